@@ -9,6 +9,7 @@ Out-of-range cuts are outside the property (they are `debug_assert`ed in the cod
 -/
 import JubakoModel.Model.View
 import JubakoModel.Lemmas.Slice
+import JubakoModel.Lemmas.Funcs
 
 namespace Jubako
 
@@ -153,5 +154,17 @@ example :
     (v.stream.drain [(4, 3), (1, 0), (100, 0)]).1 = [4, 5, 6, 7, 8, 9] ∧
     (v.stream.drain [(4, 3), (1, 0), (100, 0)]).2.sizeLeft = 0 := by
   refine ⟨by simp [View.WF], by simp [ValidNested, Region.CutOk, View.cut, Region.cutRel], by decide, by decide, by decide⟩
+
+/-! ### Tie to the source: region and stream arithmetic are the source's bodies -/
+
+/-- **`Region::cut_rel` and `ByteStream::{size, offset, size_left}` of the model are the bodies
+    translated from `bases/types/range.rs` and `reader/byte_stream.rs` on every run.** -/
+theorem c13_arithmetic_is_source_arithmetic :
+    (∀ (r : Region) (off size : Nat),
+      ((r.cutRel off size).b, (r.cutRel off size).e) = Generated.regionCutRel r.b r.e off size) ∧
+    (∀ s : Stream, s.sizeLeft = Generated.streamSizeLeft s.r.b s.r.e s.cur) ∧
+    (∀ s : Stream, s.size = Generated.streamSize s.r.b s.r.e s.cur) ∧
+    (∀ s : Stream, s.offset = Generated.streamOffset s.r.b s.r.e s.cur) :=
+  ⟨gen_regionCutRel, gen_streamSizeLeft, gen_streamSize, gen_streamOffset⟩
 
 end Jubako
